@@ -353,6 +353,20 @@ func containsSlice(t reflect.Type, depth int) bool {
 	return false
 }
 
+// hasDurKeyMap: t contains a map whose key type is time.Duration.
+func hasDurKeyMap(t reflect.Type, depth int) bool {
+	if t == nil || depth > 6 {
+		return false
+	}
+	switch t.Kind() {
+	case reflect.Map:
+		return t.Key() == durationT || hasDurKeyMap(t.Elem(), depth+1)
+	case reflect.Pointer, reflect.Slice, reflect.Array:
+		return hasDurKeyMap(t.Elem(), depth+1)
+	}
+	return false
+}
+
 func runC10(c Case) vrt.Verdict {
 	_, t0, err := pointerified(c.Shape)
 	if err != nil {
@@ -508,6 +522,12 @@ func runC10(c Case) vrt.Verdict {
 			if tl.f.kind == kSliceStruct {
 				convs["slice-of-struct"] = true
 			}
+			if hasDurKeyMap(tl.f.otype, 0) {
+				convs["map-keyed-by-duration"] = true
+				if hasConv(tl.f, "dursub") {
+					convs["dursub-map-key"] = true
+				}
+			}
 			if c.SpareCap > 0 && containsSlice(tl.f.rtype, 0) {
 				convs["slice-with-spare-capacity"] = true
 				if hasConv(tl.f, "dursub") {
@@ -540,7 +560,7 @@ func runC10(c Case) vrt.Verdict {
 }
 
 const c10Rule = "a config struct type from the full shape grammar (scalars, durations, text-unmarshalable and named types, slices, arrays, maps, sets, user pointers, nested / pointer / embedded structs incl. embedded types with tagged and aliased fields, slices of structs, skipped fields; depth<=3, <=8 fields per struct) with generated dials / alias / source-specific / format tags whose words are known by construction; T0 = Pointerify(T); " +
-	"%s; a subset of the original leaves is written THROUGH their translated counterparts (values from seeds, converted forward by the model: set->slice, Duration->ParsingDuration, own text rendering for string casts, the type's own MarshalText for text-unmarshalers), for every aliased field through either the primary or the alias copy; in 3 of 4 cases every slice written into the translated value (top level, inside maps / pointers / arrays, inside elements of slices of structs) carries 1..3 elements of spare capacity holding junk, as append-grown decoder output does; with probability 3/8 a written leaf takes its EMPTY value instead of the seeded one -- the empty string for string leaves (through a string cast: a translated *string pointing to \"\", which must reverse to a non-nil pointer to \"\", not to an unset leaf) and a non-nil empty slice / map / set for collections (text \"\" through a string cast). " +
+	"%s; leaf types include maps whose KEY type is time.Duration (map[Duration]string, map[Duration][]int, map[Duration]Duration, map[Duration][]Duration, map[Duration]map[string]Duration, []map[Duration]int, *map[Duration]string, map[string]map[Duration]int), always filled with 1..3 entries, so that the Duration substitution has to translate and reverse map keys alone and together with values; a subset of the original leaves is written THROUGH their translated counterparts (values from seeds, converted forward by the model: set->slice, Duration->ParsingDuration, own text rendering for string casts, the type's own MarshalText for text-unmarshalers), for every aliased field through either the primary or the alias copy; in 3 of 4 cases every slice written into the translated value (top level, inside maps / pointers / arrays, inside elements of slices of structs) carries 1..3 elements of spare capacity holding junk, as append-grown decoder output does; with probability 3/8 a written leaf takes its EMPTY value instead of the seeded one -- the empty string for string leaves (through a string cast: a translated *string pointing to \"\", which must reverse to a non-nil pointer to \"\", not to an unset leaf) and a non-nil empty slice / map / set for collections (text \"\" through a string cast). " +
 	"Oracle: a descriptor-level model of each mangler gives every translated field its documented key (flattened dials / dialsenv / dialsflag / dialspflag tag, json / yaml / toml tag or Go name per nesting level, alias value for alias copies), type and conversion; translated fields are located by that key only; required: TranslateType yields exactly the model's key set and leaf types at every level, the reverse-translated value has type T0, each written leaf holds the value converted back, every other leaf is nil, parent pointers are allocated iff a leaf below is set, and an all-empty translated value reverses to an all-nil T0. " +
 	"non-trivial = chain length >= 2 and the shape has nesting (or an aliased field before a nested one); distinct = distinct case JSON"
 
